@@ -364,6 +364,12 @@ EnvNext ==
     \/ \E s \in Subs, op \in {"ready", "send", "flush"} : SinkBreaks(s, op)
     \/ CloseChannel
 
+\* Time.  No variable of this module is a clock and no action is enabled or disabled by one: the router has
+\* no timers, so the passing of any amount of time between two steps is a stuttering step ([Next]_vars allows
+\* it).  The harness holds the implementation to that: in a quarter of the schedules the process clock jumps
+\* ahead by seconds, minutes or hours between the steps (`tick` events, harness/src/clock.rs), and the recorded
+\* behaviour must still be one of this module's.
+TimePasses == UNCHANGED vars
 Next == RouterNext \/ EnvNext
 
 Spec == Init /\ [][Next]_vars
